@@ -160,6 +160,7 @@ static int parseVal(const char* s, char* ty, V* v) {
 }
 int main(void) {
   static char line[1024];
+  setvbuf(stdout, NULL, _IOLBF, 0);   /* every answer reaches the pipe before the next request runs: a crash loses nothing */
   opsInstantiate(&inst, NULL);
   while (fgets(line, sizeof line, stdin)) {
     char* w[8]; int n = 0; char* p = strtok(line, " \n");
